@@ -233,7 +233,8 @@ def _emit(path_prefix: str, rec: Dict):
 def make_recorders(path_prefix: str):
     """extensions that record, inside the worker, the seeds and the candidates of every task"""
     from src.extensions.extension import Extension
-    from src.extensions.messages import InitialAlignmentMessage, MultipleAlignmentResultRowsMessage
+    from src.extensions.messages import InitialAlignmentMessage, MultipleAlignmentResultRowsMessage, \
+        CorrelationResultMessage
 
     class SeedRecorder(Extension):
         messageType = InitialAlignmentMessage
@@ -247,6 +248,20 @@ def make_recorders(path_prefix: str):
                                                            len(ia.query.positions)],
                                 "ref": int(ia.reference.moleculeId), "rev": bool(ia.reverseStrand),
                                 "peaks": [[int(p.position), float(p.score), float(p.height)] for p in ia.peaks]})
+
+    class RefineRecorder(Extension):
+        messageType = CorrelationResultMessage
+
+        def __init__(self, prefix):
+            self.prefix = prefix
+
+        def handle(self, message):
+            ia, ra = message.initialAlignment, message.refinedAlignment
+            _emit(self.prefix, {"ev": "Refine", "task": [int(ia.query.moleculeId), int(ia.query.shift),
+                                                          len(ia.query.positions)],
+                                "ref": int(ia.reference.moleculeId), "rev": bool(ia.reverseStrand),
+                                "start": int(ra.correlationStart), "index": int(message.index),
+                                "peaks": [[int(p.position), float(p.height)] for p in ra.peaks]})
 
     class CandidateRecorder(Extension):
         messageType = MultipleAlignmentResultRowsMessage
@@ -272,7 +287,7 @@ def make_recorders(path_prefix: str):
                               "segs": segs})
             _emit(self.prefix, {"ev": "Cands", "task": task, "cands": cands})
 
-    return [SeedRecorder(path_prefix), CandidateRecorder(path_prefix)]
+    return [SeedRecorder(path_prefix), RefineRecorder(path_prefix), CandidateRecorder(path_prefix)]
 
 
 def _pos(p) -> Dict:
